@@ -43,7 +43,10 @@ class HSym:
         if self.cin is not None:
             if name not in self.cin:
                 raise Unsupported(f'concrete run without a value for input {name}')
-            return self.cin[name]
+            v = self.cin[name]
+            if isinstance(v, str):
+                v = {'True': True, 'False': False}.get(v, None) if v in ('True', 'False') else float(fractions.Fraction(v))
+            return v
         if name in self.store.inputs and not isinstance(self.store.inputs[name], (list, dict)):
             return self.store.inputs[name]
         t = z3.Const(name, sort)
@@ -81,6 +84,10 @@ class HSym:
         for s in shape:
             n *= s
         return Tensor(shape, [self.int(f'{name}[{i}]') for i in range(n)])
+
+    def scalar_tensor(self, v):
+        """0-d tensor holding the given (possibly symbolic) number"""
+        return Tensor((), [_sc(v)])
 
     def const_tensor(self, values):
         return Tensor.from_nested(values)
@@ -202,10 +209,12 @@ class HSym:
         return s_cmp(op, a, b)
 
     def eq(self, a, b):
-        if isinstance(a, Tensor) and isinstance(b, Tensor) and a.shape != b.shape:
+        if isinstance(a, Tensor) and isinstance(b, Tensor) and a.shape != b.shape and a.numel() != 1 and b.numel() != 1:
             return False
         if a is None or b is None:
             return a is b
+        if self.cin is not None:
+            return _tolerant_eq(a, b)
         return self._cmp_all('==', a, b)
 
     def ne(self, a, b):
@@ -395,7 +404,8 @@ def _plain(v):
     if isinstance(v, bool) or v is None or isinstance(v, (int, str)):
         return v
     if isinstance(v, float):
-        return v
+        import math
+        return v if math.isfinite(v) else str(v)
     if isinstance(v, fractions.Fraction):
         return float(v)
     if is_sym(v):
@@ -410,3 +420,29 @@ def _plain(v):
             return False
         return str(vs)
     return str(v)
+
+
+RTOL, ATOL = 1e-5, 1e-7      # same tolerance as pyvc.native (equality of floats in concrete runs)
+
+
+def _tolerant_eq(a, b):
+    import math
+    if isinstance(a, Tensor) or isinstance(b, Tensor):
+        xa = a.els if isinstance(a, Tensor) else None
+        xb = b.els if isinstance(b, Tensor) else None
+        if xa is not None and xb is not None:
+            if len(xa) == len(xb):
+                return all(_tolerant_eq(x, y) for x, y in zip(xa, xb))
+            if len(xa) == 1:
+                return all(_tolerant_eq(xa[0], y) for y in xb)
+            if len(xb) == 1:
+                return all(_tolerant_eq(x, xb[0]) for x in xa)
+            return False
+        if xa is not None:
+            return all(_tolerant_eq(x, b) for x in xa)
+        return all(_tolerant_eq(a, y) for y in xb)
+    if isinstance(a, (tuple, list)) and isinstance(b, (tuple, list)):
+        return len(a) == len(b) and all(_tolerant_eq(x, y) for x, y in zip(a, b))
+    if isinstance(a, bool) or isinstance(b, bool) or isinstance(a, str) or isinstance(b, str):
+        return a == b
+    return math.isclose(a, b, rel_tol=RTOL, abs_tol=ATOL)
